@@ -344,12 +344,29 @@ func random(r *rand.Rand, maxLen int) ([]hx.T, []string) {
 	return ops, tl
 }
 
+// maxHung: after this many cases that ran into a watchdog (or could not be torn down) the
+// run stops generating and reports what it has - on badly broken code every further case
+// would only cost another watchdog, and the hung cases are already concrete failures.
+const maxHung = 6
+
 func Run(cfg *hx.Config) error {
+	hungCases, stopped := 0, false
+	replay := cfg.In != ""
 	emit := func(kind string, ops []hx.T, tags []string) {
-		obs, nt := Exec(ops)
+		if stopped {
+			return
+		}
+		obs, nt, hung := Exec(ops)
 		cfg.Emit(hx.Case{Kind: kind, Ops: ops, Obs: obs, Nontrivial: nt, Tags: tags})
+		if hung {
+			hungCases++
+			if !replay && hungCases >= maxHung {
+				stopped = true
+				fmt.Printf("c05: %d cases hung or leaked - generation stopped after %d cases\n", hungCases, cfg.Emitted())
+			}
+		}
 	}
-	if cfg.In != "" {
+	if replay {
 		cs, err := hx.ReadCases(cfg.In)
 		if err != nil {
 			return err
@@ -363,7 +380,7 @@ func Run(cfg *hx.Config) error {
 	if cfg.N > 0 {
 		enumerate(emit, thorough)
 	}
-	for i := 0; i < cfg.N; i++ {
+	for i := 0; i < cfg.N && !stopped; i++ {
 		maxLen := 14
 		if i%4 == 3 {
 			maxLen = 60
